@@ -178,7 +178,9 @@ def _extract(ds):
 def _ravel_named_on_last_kind(ds):
     """An array with the name of a dataset variable that lives on another grid (e.g. face values sampled onto nodes)."""
     convention = ds.ems
-    kind = list(convention.grid_kinds)[-1]
+    # (chosen by name: the iteration order of the set of grid kinds differs between processes and between a freshly
+    # built and an unpickled convention, and must not decide which grid the probe array lives on)
+    kind = sorted(convention.grid_kinds, key=lambda k: str(getattr(k, 'value', k)))[-1]
     dims = convention.grid_dimensions[kind]
     shape = tuple(convention.grid_shape[kind])
     values = np.arange(int(np.prod(shape)), dtype='float64').reshape(shape) + 0.5
